@@ -111,6 +111,67 @@ def is_hamming_loop(t):
     return srcs == {1, 2} and len(ab) == 2
 
 
+def is_signed_dot_loop(f, t):
+    """`let mut sum: i32 = 0; for i in 0..min(len) { sum += ones(!(u[i] ^ v[i])) - zeros(!(u[i] ^ v[i])) }` (the helper computing
+    ones - zeros is inlined by the fact base)"""
+    zero = [a for a in t[2] if const_eval(a) == 0]
+    steps = [a for a in t[2] if const_eval(a) is None]
+    if len(zero) != 1 or len(steps) != 1 or 'i32' not in f.local_ty(t[1]):
+        return False
+
+    def unov(x):
+        x = strip(x)
+        if x[0] == 'field' and x[2] == '0' and strip(x[1])[0] == 'binop' and strip(x[1])[1].endswith('WithOverflow'):
+            x = strip(x[1])
+        return x
+    st = unov(steps[0])
+    if st[0] != 'binop' or not st[1].startswith('Add'):
+        return False
+    x, y = strip(st[2]), unov(st[3])
+    if y[0] in ('phi', 'var') and y[1] == t[1]:
+        x, y = y, unov(st[2])
+    if not (x[0] in ('phi', 'var') and x[1] == t[1]):
+        return False
+    if y[0] != 'binop' or not y[1].startswith('Sub'):
+        return False
+    a, b = strip(y[2]), strip(y[3])
+    a, b = (strip(a[2]) if a[0] == 'cast' else a), (strip(b[2]) if b[0] == 'cast' else b)
+    if not (a[0] == 'call' and a[1].endswith('count_ones') and b[0] == 'call' and b[1].endswith('count_zeros')):
+        return False
+    xa, xb = strip(a[2][0]), strip(b[2][0])
+
+    def canon(e):
+        # Not(u_byte ^ v_byte) -> (param of the first operand, index origin, param of the second, index origin)
+        e = strip(e)
+        if not (e[0] == 'unop' and e[1] == 'Not'):
+            return None
+        xo = strip(e[2])
+        if xo[0] == 'binop' and xo[1] == 'BitXor':
+            ops = (xo[2], xo[3])
+        elif xo[0] == 'call' and xo[1].endswith('BitXor::bitxor'):
+            ops = (xo[2][0], xo[2][1])
+        else:
+            return None
+        out = []
+        for o in ops:
+            o = strip(o)
+            while o[0] in ('deref', 'ref'):
+                o = strip(o[1])
+            if o[0] != 'index':
+                return None
+            base = [q for q in walk(o[1]) if q[0] == 'call' and q[1].endswith('as_bytes')]
+            args = {q[1] for q in walk(o[1]) if q[0] == 'arg'}
+            if len(base) != 1 or len(args) != 1:
+                return None
+            idx = strip_all(f.local_term(o[2])) if isinstance(o[2], int) else strip_all(o[2])
+            out.append((args.pop(), idx))
+        return out
+    ca, cb = canon(xa), canon(xb)
+    if ca is None or ca != cb:
+        return False
+    return {ca[0][0], ca[1][0]} == {1, 2} and ca[0][1] == ca[1][1]
+
+
 def r_linear(ctx, rule='R-BQ-LINEAR'):
     F = ctx.F
     for mod, want, norm_max in (('binary_quantized_euclidean', 4, False), ('binary_quantized_manhattan', 2, True)):
@@ -191,6 +252,8 @@ def r_dot(ctx, rule='R-BQ-DOT'):
                             x = strip(a[2][0])
                             okc = x[0] == 'unop' and x[1] == 'Not' and strip(x[2])[0] == 'call' and strip(x[2])[1].endswith('BitXor::bitxor')
             good = signed_sum and okc and len(ab) == 2
+            if not good and s[0] == 'phi':
+                good = is_signed_dot_loop(f, s)
     ctx.check(good, rule, 'dot_product_binary_quantized', f.loc(), 'sum over bytes of ones(!(u^v)) - zeros(!(u^v)) as i32, then f32',
               'dot_product_binary_quantized is not the signed sum of popcount(!(u^v)) - zerocount(!(u^v))')
     # cosine form
